@@ -192,6 +192,15 @@ impl TraceHandler {
         Ok(())
     }
 
+    /// Verification hook: fold lore of the previous and the current data not claimed by any iteration.
+    #[cfg(aquavm_verif)]
+    pub fn verif_unclaimed_fold_lore(&mut self, fold_id: u32) -> Option<(usize, u64, usize, u64)> {
+        self.fsm_keeper
+            .fold_mut(fold_id)
+            .ok()
+            .map(|fold_fsm| fold_fsm.verif_unclaimed_lore())
+    }
+
     pub fn meet_fold_end(&mut self, fold_id: u32) -> TraceHandlerResult<()> {
         let fold_fsm = self.fsm_keeper.extract_fold(fold_id)?;
         fold_fsm.meet_fold_end(&mut self.data_keeper);
